@@ -201,6 +201,15 @@ func analyseAccessor(fn *ssa.Function, typ, field string, get bool) *accessor {
 			segs, bad := bitSegments(bv)
 			if bad {
 				// kept bits + new field with a common bit position: the addition carries
+				if bo, isOr := x.Val.(*ssa.BinOp); isOr && bo.Op == token.OR {
+					l, r := ba.Bits(bo.X), ba.Bits(bo.Y)
+					for i := 0; l != nil && r != nil && i < len(l) && i < len(r); i++ {
+						if l[i].Kind != core.BZero && r[i].Kind != core.BZero && l[i] != r[i] {
+							a.carry = fmt.Sprintf("store to %s ORs the new field onto bit %d without clearing it first (%s | %s): a bit that was 1 stays 1, so setting a second value leaves a mixture of both", addr, i, l.Describe(), r.Describe())
+							break
+						}
+					}
+				}
 				if bo, isAdd := x.Val.(*ssa.BinOp); isAdd && bo.Op == token.ADD {
 					l, r := ba.Bits(bo.X), ba.Bits(bo.Y)
 					for i := 0; l != nil && r != nil && i < len(l) && i < len(r); i++ {
